@@ -36,6 +36,9 @@ def rat_angle(rng, axis_prob=0.15):
 
 
 def theta_of(angle):
+    if isinstance(angle, dict):   # {"raw": "p/q"}: the angle itself in radians (not a rational circle point: oracle-only)
+        x = unrat(angle["raw"])
+        return int(x) if angle.get("int") else float(x)
     ch, sh = float(unrat(angle[0])), float(unrat(angle[1]))
     return 2.0 * math.atan2(sh, ch)
 
